@@ -29,3 +29,6 @@ def run(ck):
     pipeline.overflow_dispatch(ck, "C02.R6", "C03.R2", roles)   # monotone under saturate: the clamp is a clamp
     ops.conversions(ck, "C16.R2")                     # the value read back is code * 2^-n_frac for every n_frac (also negative)
     flags.inaccuracy_guard(ck, "C04.R2")              # "stored unchanged with no flag": the comparison is on what was just stored
+    sizes.resize_rules(ck, {"restore_scaled": "C17.R2", "restore_raw": "C10.R1"})
+    conv.rescaling_siblings(ck, "C10.R1", "C10.R2")
+    fresh.no_hidden_state(ck, "C20.R8")                  # results depend on the documented state only (no caches / memos)
